@@ -76,7 +76,7 @@ def cells_for(decl, payload, allowed_name, tier="quick"):
         cells += variants + [payload[:2], payload + payload]
     if allowed_name != "none":
         # characters outside the allowed range; whitespace-like ones matter because fixed cells are stripped
-        bad_characters = [OUTSIDE["ascii"], "\xa0", "\u2003"] if allowed_name == "ascii" else [OUTSIDE["alphabet"], "\t", "\xa0", "\x0c"]
+        bad_characters = [OUTSIDE["ascii"], "\xa0", "\u2003"] if allowed_name == "ascii" else [OUTSIDE["alphabet"], "\t", "\xa0", "\x0c", "\n", "\r"]
         if allowed_name == "alphabet-without-blank":
             bad_characters.append(" ")
         if tier == "thorough":
